@@ -102,6 +102,16 @@ func GoEnd() {
 	s.GoEnd()
 }
 
+// Scheduling reports whether a simulator that decides which goroutine runs is installed.
+//
+//go:norace
+func Scheduling() bool {
+	if s, ok := Sim.(interface{ Scheduling() bool }); ok {
+		return s.Scheduling()
+	}
+	return false
+}
+
 //go:norace
 func Locked(d int) {
 	if s := Sim; s != nil {
